@@ -6,15 +6,20 @@
 //!
 //! Ops: see lean/Srtla/Drv/Reg.lean.
 
-use std::collections::BTreeSet;
+use std::collections::{BTreeSet, HashMap};
 use std::net::SocketAddr;
+use std::sync::Arc;
 
 use smallvec::SmallVec;
 use srtla_core::connection::SrtlaConnection;
 use srtla_core::registration::SrtlaRegistrationManager;
 use srtla_core::registration::verif_hooks::VerifRegState;
 use srtla_core::utils::verif_clock;
-use srtla_send::sender::verif_hooks::process_uplink_packet;
+use srtla_send::net::{BatchUdpSocket, SourceIpBinder};
+use srtla_send::sender::verif_hooks::{
+    ConnIo, ConnIoMap, ConnectionId, ReaderHandle, SequenceTracker, UplinkPacket, create_uplink_channel,
+    handle_housekeeping, handle_uplink_packet, process_uplink_packet,
+};
 use tokio::net::UdpSocket;
 use tokio::sync::mpsc::{UnboundedReceiver, UnboundedSender, unbounded_channel};
 
@@ -85,7 +90,31 @@ struct Case {
     n_bc: u64,
     /// an attempt was abandoned by timeout and no new REG1 has gone out yet
     abandoned: bool,
+    /// sockets for driving the real `handle_housekeeping` (created by the first `hktick`)
+    shell: Option<ShellIo>,
 }
+
+/// The shell-owned I/O the real `handle_housekeeping` needs: one connected loopback socket per
+/// uplink, and one receiver socket per uplink standing for the SRTLA receiver (what arrives there is
+/// what the sender put on that uplink's wire).
+struct ShellIo {
+    conn_io: ConnIoMap,
+    receivers: Vec<std::net::UdpSocket>,
+    reader_handles: HashMap<ConnectionId, ReaderHandle>,
+    packet_tx: UnboundedSender<UplinkPacket>,
+    _packet_rx: UnboundedReceiver<UplinkPacket>,
+    all_failed_at: Option<u64>,
+}
+
+impl Drop for ShellIo {
+    fn drop(&mut self) {
+        for (_, h) in self.reader_handles.drain() {
+            h.handle.abort();
+        }
+    }
+}
+
+const END_MARK: &[u8] = b"\xff\xfeEND-OF-TICK";
 
 pub struct RegComp {
     rt: tokio::runtime::Runtime,
@@ -110,6 +139,7 @@ fn fresh_case() -> Case {
         n_acc: 0,
         n_bc: 0,
         abandoned: false,
+        shell: None,
     }
 }
 
@@ -243,25 +273,103 @@ impl Case {
 
     // ------------------------------------------------------------------ atomic steps on the real code
 
-    fn do_pkt(&mut self, env: &RegEnv, idx: usize, now: u64, data: &[u8], mon: &mut Mon) -> Vec<Sent> {
+    /// `real_shell = false`: the real `process_uplink_packet`; the immediate REG1 is the returned effect.
+    /// `real_shell = true`: the real `handle_uplink_packet` (looks the uplink up by conn id, calls
+    /// `process_uplink_packet`, transmits the immediate REG1 on that uplink's socket); the immediate REG1
+    /// is what arrives at the uplinks' receiver sockets.
+    fn do_pkt(
+        &mut self,
+        env: &RegEnv,
+        idx: usize,
+        now: u64,
+        data: &[u8],
+        mon: &mut Mon,
+        real_shell: bool,
+    ) -> Option<(Vec<Sent>, Option<Vec<Vec<Vec<u8>>>>)> {
+        if real_shell {
+            self.ensure_shell(env);
+        }
         verif_clock::set(Some(now));
         let pre: VerifRegState = self.reg.verif_state();
         let pre_id = self.reg.srtla_id;
         let pre_conn = self.conn_flags();
         let ty = if data.len() >= 2 { Some(u16::from_be_bytes([data[0], data[1]])) } else { None };
 
-        let incoming = env
-            .rt
-            .block_on(process_uplink_packet(
-                &mut self.conns[idx],
-                idx,
-                &mut self.reg,
-                env.listener,
-                env.fwd_tx,
-                None,
-                data,
-            ))
-            .expect("process_uplink_packet");
+        let mut wire: Option<Vec<Vec<Vec<u8>>>> = None;
+        let reg1_send: Option<Vec<u8>> = if real_shell {
+            let res = {
+                let packet = UplinkPacket { conn_id: self.conns[idx].conn_id, bytes: SmallVec::from_slice_copy(data) };
+                let conns = &mut self.conns;
+                let reg = &mut self.reg;
+                let sh = self.shell.as_ref().unwrap();
+                let tracker = SequenceTracker::new();
+                let cfg = srtla_core::config_snapshot::ConfigSnapshot::default();
+                std::panic::catch_unwind(std::panic::AssertUnwindSafe(|| {
+                    env.rt.block_on(handle_uplink_packet(
+                        packet,
+                        conns,
+                        &sh.conn_io,
+                        reg,
+                        env.fwd_tx,
+                        None,
+                        env.listener,
+                        &tracker,
+                        &cfg,
+                    ))
+                }))
+            };
+            if res.is_err() {
+                mon.fail(
+                    P,
+                    "panic:process_uplink_packet",
+                    format!("hkpkt idx={idx} now={now} type={:?} len={}: handle_uplink_packet panicked", ty, data.len()),
+                );
+                return None;
+            }
+            let per_link = self.collect_wire(now, mon);
+            let mut first = None;
+            for (i, pk) in per_link.iter().enumerate() {
+                for p in pk {
+                    if i == idx && p[..2] == T_REG1.to_be_bytes() && first.is_none() {
+                        first = Some(p.clone());
+                    } else {
+                        mon.fail(
+                            P,
+                            "unexpected-packet-on-receive",
+                            format!(
+                                "hkpkt idx={idx} now={now}: receive path put type {} on uplink {i} (only one REG1 on the arrival uplink is allowed)",
+                                to_hex(&p[..2])
+                            ),
+                        );
+                    }
+                }
+            }
+            wire = Some(per_link);
+            first
+        } else {
+            let res = {
+                let conn = &mut self.conns[idx];
+                let reg = &mut self.reg;
+                std::panic::catch_unwind(std::panic::AssertUnwindSafe(|| {
+                    env.rt.block_on(process_uplink_packet(conn, idx, reg, env.listener, env.fwd_tx, None, data))
+                }))
+            };
+            match res {
+                Ok(Ok(i)) => i.reg1_send.map(|p| p.to_vec()),
+                Ok(Err(e)) => {
+                    mon.fail(P, "error:process_uplink_packet", format!("pkt idx={idx} now={now} len={}: {e}", data.len()));
+                    return None;
+                }
+                Err(_) => {
+                    mon.fail(
+                        P,
+                        "panic:process_uplink_packet",
+                        format!("pkt idx={idx} now={now} type={:?} len={}: the receive arm panicked", ty, data.len()),
+                    );
+                    return None;
+                }
+            }
+        };
         let post = self.reg.verif_state();
         let what = format!("pkt idx={idx} now={now} type={} len={}", show_opt(ty.map(|t| format!("{t:04x}"))), data.len());
         let mut out = Vec::new();
@@ -352,7 +460,7 @@ impl Case {
             && self.outstanding.is_empty()
             && pre.active_connections == 0
             && pre.probing_state != 2;
-        if let Some(p) = incoming.reg1_send {
+        if let Some(p) = reg1_send.as_ref() {
             if ty != Some(T_NGP) {
                 mon.fail(P, "reg1-unsolicited", format!("{what}: immediate REG1 without REG_NGP"));
             }
@@ -361,8 +469,8 @@ impl Case {
                 // known side observation (not alarmed): active_connections is housekeeping-stale
                 mon.count("side:immediate-reg1-with-connected-link");
             }
-            self.on_reg1_emit(idx, &p, now, mon, &what);
-            out.push(Sent { kind: "reg1imm", target: Some(idx), pkt: p.to_vec() });
+            self.on_reg1_emit(idx, p, now, mon, &what);
+            out.push(Sent { kind: "reg1imm", target: Some(idx), pkt: p.clone() });
         } else if ngp_must_answer {
             mon.fail(
                 P,
@@ -370,7 +478,7 @@ impl Case {
                 format!("{what}: REG_NGP after an abandoned attempt (active=0) was not answered with REG1"),
             );
         }
-        if ty == Some(T_NGP) && incoming.reg1_send.is_none() {
+        if ty == Some(T_NGP) && reg1_send.is_none() {
             mon.count(if pre.probing_state == 2 {
                 "ngp-probe-response"
             } else if pre.pending_reg2_idx.is_some() {
@@ -394,7 +502,7 @@ impl Case {
             }
         }
         self.after_op(&pre_conn, if ty == Some(T_REG3) { Some(idx) } else { None }, mon, &what);
-        out
+        Some((out, wire))
     }
 
     fn do_clear(&mut self, now: u64, mon: &mut Mon) {
@@ -492,6 +600,260 @@ impl Case {
         }
         self.after_op(&pre_conn, None, mon, &what);
         out
+    }
+
+    fn ensure_shell(&mut self, env: &RegEnv) {
+        if self.shell.is_some() {
+            return;
+        }
+        let _g = env.rt.enter();
+        let mut conn_io: ConnIoMap = HashMap::new();
+        let mut receivers = Vec::new();
+        for c in self.conns.iter_mut() {
+            let rx = std::net::UdpSocket::bind("127.0.0.1:0").expect("bind receiver");
+            rx.set_read_timeout(Some(std::time::Duration::from_millis(2000))).unwrap();
+            let remote = rx.local_addr().unwrap();
+            let sock = socket2::Socket::new(socket2::Domain::IPV4, socket2::Type::DGRAM, Some(socket2::Protocol::UDP))
+                .expect("socket");
+            sock.bind(&"127.0.0.1:0".parse::<SocketAddr>().unwrap().into()).expect("bind uplink");
+            sock.connect(&remote.into()).expect("connect uplink");
+            sock.set_nonblocking(true).unwrap();
+            // reconnect_uplink re-creates the socket bound to the link's local ip
+            c.local_ip = std::net::IpAddr::V4(std::net::Ipv4Addr::LOCALHOST);
+            conn_io.insert(
+                c.conn_id,
+                ConnIo { socket: Arc::new(BatchUdpSocket::new(sock).expect("batch socket")), binder: Arc::new(SourceIpBinder), remote },
+            );
+            receivers.push(rx);
+        }
+        let (packet_tx, packet_rx) = create_uplink_channel();
+        self.shell = Some(ShellIo {
+            conn_io,
+            receivers,
+            reader_handles: HashMap::new(),
+            packet_tx,
+            _packet_rx: packet_rx,
+            all_failed_at: None,
+        });
+    }
+
+    /// What each uplink put on the wire since the last collection (REG1/REG2 datagrams only), read at
+    /// the uplink's receiver socket up to an end marker sent on the uplink's current socket.
+    fn collect_wire(&mut self, now: u64, mon: &mut Mon) -> Vec<Vec<Vec<u8>>> {
+        let sh = self.shell.as_mut().expect("shell io");
+        let mut per_link: Vec<Vec<Vec<u8>>> = Vec::new();
+        for (i, c) in self.conns.iter().enumerate() {
+            let mut got = Vec::new();
+            let io = sh.conn_io.get(&c.conn_id).expect("io");
+            let marked = io.socket.try_send(END_MARK).is_ok();
+            let mut buf = [0u8; 2048];
+            while marked {
+                match sh.receivers[i].recv(&mut buf) {
+                    Ok(k) => {
+                        if &buf[..k] == END_MARK {
+                            break;
+                        }
+                        if k >= 2 && (buf[..2] == T_REG1.to_be_bytes() || buf[..2] == T_REG2.to_be_bytes()) {
+                            got.push(buf[..k].to_vec());
+                        }
+                    }
+                    Err(_) => {
+                        mon.fail(P, "harness:marker-lost", format!("now={now}: no end marker on link {i}"));
+                        break;
+                    }
+                }
+            }
+            if !marked {
+                mon.fail(P, "harness:marker-not-sent", format!("now={now}: link {i}"));
+            }
+            per_link.push(got);
+        }
+        per_link
+    }
+
+    /// One pass of the REAL `handle_housekeeping`. The links in `rcs` are put into the state in which
+    /// housekeeping takes its reconnect branch for them (timed out, retry allowed); every other link is
+    /// put into a state in which it does not (connected: just heard from; disconnected: retry interval
+    /// not elapsed). Returns, per uplink, the REG1/REG2 datagrams that arrived at that uplink's receiver.
+    fn do_hktick(&mut self, env: &RegEnv, now: u64, rcs: &[usize], mon: &mut Mon) -> Option<Vec<Vec<Vec<u8>>>> {
+        self.ensure_shell(env);
+        verif_clock::set(Some(now));
+        let pre = self.reg.verif_state();
+        let pre_conn = self.conn_flags();
+        for (i, c) in self.conns.iter_mut().enumerate() {
+            if rcs.contains(&i) {
+                c.last_received = if c.connected { Some(now.saturating_sub(c.verif_private().conn_timeout_ms)) } else { None };
+                c.reconnection.startup_grace_deadline_ms = 0;
+                c.reconnection.last_reconnect_attempt_ms = 0;
+                if !c.is_timed_out(now) || !c.should_attempt_reconnect(now) {
+                    mon.fail(P, "harness:cannot-force-reconnect", format!("hktick now={now}: link {i} not forced"));
+                }
+            } else if c.connected {
+                c.last_received = Some(now);
+            } else {
+                c.last_received = None;
+                c.reconnection.startup_grace_deadline_ms = 0;
+                c.reconnection.last_reconnect_attempt_ms = now - 1;
+                if !c.is_timed_out(now) || c.should_attempt_reconnect(now) {
+                    mon.fail(P, "harness:cannot-hold-link", format!("hktick now={now}: link {i} would reconnect"));
+                }
+            }
+        }
+        let forced_attempt: Vec<u64> = self.conns.iter().map(|c| c.reconnection.last_reconnect_attempt_ms).collect();
+        let sh = self.shell.as_mut().unwrap();
+        let res = {
+            let conns = &mut self.conns;
+            let reg = &mut self.reg;
+            let ShellIo { conn_io, reader_handles, packet_tx, all_failed_at, .. } = sh;
+            std::panic::catch_unwind(std::panic::AssertUnwindSafe(|| {
+                env.rt.block_on(handle_housekeeping(
+                    conns,
+                    conn_io,
+                    reg,
+                    false,
+                    now,
+                    all_failed_at,
+                    reader_handles,
+                    packet_tx,
+                ))
+            }))
+        };
+        if res.is_err() {
+            mon.fail(P, "panic:handle_housekeeping", format!("hktick now={now} rcs={rcs:?}: housekeeping panicked"));
+            return None;
+        }
+        let per_link = self.collect_wire(now, mon);
+
+        // which links really took the reconnect branch: record_reconnect_attempt stamped them with `now`
+        let eff: Vec<usize> = self
+            .conns
+            .iter()
+            .enumerate()
+            .filter(|(i, c)| c.reconnection.last_reconnect_attempt_ms == now && forced_attempt[*i] != now)
+            .map(|(i, _)| i)
+            .collect();
+        let post = self.reg.verif_state();
+        let probing_completed = (pre.probing_state == 1 || pre.probing_state == 2) && post.probing_state == 3;
+        for i in rcs {
+            if !eff.contains(i) {
+                // housekeeping gives the link selected by a just-completed probing phase a new grace period
+                if probing_completed && self.conns[*i].reconnection.connection_established_ms == 0 {
+                    mon.count("hk-grace-reset-skips-reconnect");
+                } else {
+                    mon.fail(P, "harness:cannot-force-reconnect", format!("hktick now={now}: link {i} skipped the reconnect branch"));
+                }
+            }
+        }
+        if eff.iter().any(|i| !rcs.contains(i)) {
+            mon.fail(P, "harness:cannot-hold-link", format!("hktick now={now}: reconnect branch taken by {eff:?}, asked {rcs:?}"));
+        }
+        let rcs: &[usize] = &eff;
+
+        // ---- monitors from the wire view (ghost only; the manager's state is not consulted)
+        let what = format!("real handle_housekeeping now={now} rcs={rcs:?}");
+        let mut abandoned_now = false;
+        if !self.outstanding.is_empty() && now >= self.last_reg1_at + 4000 {
+            mon.count(if now == self.last_reg1_at + 4000 { "timeout-at-deadline" } else { "timeout-past-deadline" });
+            self.outstanding.clear();
+            self.abandoned = true;
+            abandoned_now = true;
+        }
+        let hk_outstanding = self.outstanding.clone();
+        let registered = self.conns.iter().filter(|c| c.connected).count();
+        let mut bcast: Option<usize> = None;
+        let mut bcast_pkt: Option<Vec<u8>> = None;
+        let mut any_reg1 = false;
+        for (i, pk) in per_link.iter().enumerate() {
+            let mut reg2s = 0usize;
+            for p in pk {
+                if p[..2] == T_REG1.to_be_bytes() {
+                    any_reg1 = true;
+                    let is_hk_resend = rcs.contains(&i) && hk_outstanding.contains(&i);
+                    if !is_hk_resend {
+                        mon.count("drv-reg1");
+                        // a REG1 that is not the reconnect re-send to the pending uplink comes from the driver
+                        if registered != 0 {
+                            mon.fail(
+                                P,
+                                "reg1-while-active",
+                                format!("{what}: driver REG1 to {i} with {registered} connected uplinks"),
+                            );
+                        }
+                    } else {
+                        mon.count("hk-reg1-resend");
+                    }
+                    self.on_reg1_emit(i, p, now, mon, &what);
+                } else {
+                    reg2s += 1;
+                    self.on_reg2_emit(p, mon, &what);
+                    bcast_pkt = Some(p.clone());
+                }
+            }
+            let expected_hk_reg2 = usize::from(rcs.contains(&i) && hk_outstanding.is_empty());
+            if expected_hk_reg2 == 1 {
+                mon.count("hk-reg2-resend");
+            } else if rcs.contains(&i) && !hk_outstanding.contains(&i) {
+                mon.count("hk-defer");
+            }
+            let b = reg2s.wrapping_sub(expected_hk_reg2);
+            match bcast {
+                None => bcast = Some(b),
+                Some(b0) if b0 != b => mon.fail(
+                    P,
+                    "broadcast-partial",
+                    format!("{what}: uplink {i} got {reg2s} REG2 (expected {expected_hk_reg2} re-send + the same broadcast count as the others)"),
+                ),
+                _ => {}
+            }
+        }
+        match bcast {
+            Some(0) | None => {
+                if self.acc_since_bcast && !per_link.is_empty() {
+                    mon.fail(P, "broadcast-missing", format!("{what}: a REG2 was accepted since the last broadcast, none sent"));
+                    self.acc_since_bcast = false;
+                }
+            }
+            Some(1) => {
+                mon.count("broadcast");
+                if !self.acc_since_bcast {
+                    mon.fail(P, "broadcast-twice", format!("{what}: broadcast without an acceptance since the last one"));
+                }
+                self.acc_since_bcast = false;
+                self.n_bc += 1;
+                let _ = bcast_pkt;
+            }
+            Some(k) => mon.fail(P, "broadcast-twice", format!("{what}: {k} broadcast rounds in one pass")),
+        }
+        if abandoned_now && !any_reg1 && self.reg.pending_reg2_idx().is_some() {
+            mon.fail(
+                P,
+                "timeout-not-abandoned",
+                format!("{what}: attempt older than 4000 ms still pending after the pass (pto before = {})", pre.pending_timeout_at_ms),
+            );
+        }
+        self.after_op(&pre_conn, None, mon, &what);
+        Some(per_link)
+    }
+
+    fn obs_wire(&self, per_link: &[Vec<Vec<u8>>]) -> String {
+        let links: Vec<String> = per_link
+            .iter()
+            .enumerate()
+            .map(|(i, pk)| {
+                let items: Vec<String> = pk
+                    .iter()
+                    .map(|p| {
+                        let body = &p[2..];
+                        let idt = if body == self.reg.verif_probe_id() { "P".to_string() } else { id_tag(body) };
+                        format!("{}:{}:{}", to_hex(&p[..2]), p.len(), idt)
+                    })
+                    .collect();
+                format!("{}:[{}]", i, items.join(","))
+            })
+            .collect();
+        let o = self.obs(&[]);
+        // replace the leading "out=-" by the wire view
+        format!("rx={}{}", links.join("|"), &o["out=-".len()..])
     }
 
     fn do_drop(&mut self, idx: usize, mon: &mut Mon) {
@@ -662,8 +1024,27 @@ fn exec_op(case: &mut Case, env: &RegEnv, toks: &[&str], mon: &mut Mon) -> Strin
             }
             case.fresh = false;
             let data = mk_packet(ty, len, seed);
-            let out = case.do_pkt(env, idx, now, &data, mon);
-            case.obs(&out)
+            match case.do_pkt(env, idx, now, &data, mon, false) {
+                Some((out, _)) => case.obs(&out),
+                None => "PANIC".into(),
+            }
+        }
+        ["hkpkt", idx, now, ty, len, seed] => {
+            let idx = get!(parse_u(idx)) as usize;
+            let now = get!(parse_u(now));
+            let ty = get!(parse_type(ty));
+            let len = get!(parse_u(len)) as usize;
+            let seed = get!(parse_u(seed));
+            if !case.inited || idx >= case.n {
+                return BAD.into();
+            }
+            case.fresh = false;
+            mon.count("hkpkt-real-handle_uplink_packet");
+            let data = mk_packet(ty, len, seed);
+            match case.do_pkt(env, idx, now, &data, mon, true) {
+                Some((_, Some(wire))) => case.obs_wire(&wire),
+                _ => "PANIC".into(),
+            }
         }
         ["tick", now, rcs] => {
             let now = get!(parse_u(now));
@@ -682,6 +1063,19 @@ fn exec_op(case: &mut Case, env: &RegEnv, toks: &[&str], mon: &mut Mon) -> Strin
             case.do_upd(mon);
             out.extend(case.do_driver(now, true, mon));
             case.obs(&out)
+        }
+        ["hktick", now, rcs] => {
+            let now = get!(parse_u(now));
+            let rcs: Vec<usize> = get!(parse_list::<u64>(rcs)).into_iter().map(|x| x as usize).collect();
+            if !case.inited || now < 100_000 || rcs.iter().any(|i| *i >= case.n) || !strictly_inc(&rcs) {
+                return BAD.into();
+            }
+            case.fresh = false;
+            mon.count("hktick-real-housekeeping");
+            match case.do_hktick(env, now, &rcs, mon) {
+                Some(per_link) => case.obs_wire(&per_link),
+                None => "PANIC".into(),
+            }
         }
         ["clear", now] => {
             let now = get!(parse_u(now));
@@ -769,9 +1163,15 @@ impl RegComp {
             2 => 1_700_000_000_000 + rng.below(100_000),
             _ => rng.below(100_000),
         };
+        // "shell mode": housekeeping passes go through the REAL handle_housekeeping over loopback sockets
+        let shell_mode = rng.chance(2, 5);
+        if shell_mode && t < 100_000 {
+            t += 100_000;
+        }
         let push = |ops: &mut Vec<String>, shadow: &mut Case, mon: &mut Mon, line: String| {
             let toks: Vec<&str> = line.split_whitespace().collect();
-            let _ = exec_op(shadow, &env, &toks, mon);
+            // a panic of the real code while generating must not lose the case: exec reports it
+            let _ = std::panic::catch_unwind(std::panic::AssertUnwindSafe(|| exec_op(shadow, &env, &toks, mon)));
             ops.push(line);
         };
         push(&mut ops, &mut shadow, &mut mon, format!("init {} {}", n, rng.below(1000)));
@@ -861,7 +1261,7 @@ impl RegComp {
                         rcs.push(i);
                     }
                 }
-                format!("tick {t} {}", join_list(&rcs))
+                format!("{} {t} {}", if shell_mode && t >= 100_000 { "hktick" } else { "tick" }, join_list(&rcs))
             };
             let choice = rng.below(100);
             let line = if st.probing_state == 2 {
@@ -945,15 +1345,145 @@ impl RegComp {
                     _ => tick_line(rng, t, &conn, pend),
                 }
             };
+            let line = match line.strip_prefix("pkt ") {
+                Some(rest) if shell_mode => format!("hkpkt {rest}"),
+                _ => line,
+            };
             push(&mut ops, &mut shadow, &mut mon, line);
         }
         ops
     }
 }
 
+// ---------------------------------------------------------------------- exhaustive families
+
+/// Letters of the exhaustive enumeration over two uplinks. Each letter advances the clock, then acts.
+const LETTERS2: usize = 12;
+fn letter2(l: usize, pos: usize, t: &mut u64, tick: &str) -> String {
+    match l {
+        0 | 1 => {
+            *t += 10;
+            format!("pkt {} {} 9211 2 0", l, *t)
+        }
+        2 | 3 => {
+            *t += 10;
+            format!("pkt {} {} 9201 258 {}", l - 2, *t, 2000 + pos)
+        }
+        4 => {
+            *t += 10;
+            format!("pkt 0 {} 9201 257 {}", *t, 3000 + pos)
+        }
+        5 | 6 => {
+            *t += 10;
+            format!("pkt {} {} 9202 2 0", l - 5, *t)
+        }
+        7 | 8 => {
+            *t += 10;
+            format!("pkt {} {} 9210 2 0", l - 7, *t)
+        }
+        9 => format!("{tick} {} -", *t),
+        10 => {
+            *t += 4000;
+            format!("{tick} {} -", *t)
+        }
+        _ => {
+            *t += 1000;
+            format!("{tick} {} 0", *t)
+        }
+    }
+}
+
+/// Letters of the exhaustive enumeration over three uplinks.
+const LETTERS3: usize = 16;
+fn letter3(l: usize, pos: usize, t: &mut u64) -> String {
+    match l {
+        0..=2 => {
+            *t += 10;
+            format!("pkt {} {} 9211 2 0", l, *t)
+        }
+        3..=5 => {
+            *t += 10;
+            format!("pkt {} {} 9201 258 {}", l - 3, *t, 2000 + pos)
+        }
+        6 => {
+            *t += 10;
+            format!("pkt 0 {} 9201 257 {}", *t, 3000 + pos)
+        }
+        7 | 8 => {
+            *t += 10;
+            format!("pkt {} {} 9202 2 0", l - 7, *t)
+        }
+        9 | 10 => {
+            *t += 10;
+            format!("pkt {} {} 9210 2 0", l - 9, *t)
+        }
+        11 => format!("tick {} -", *t),
+        12 => {
+            *t += 4000;
+            format!("tick {} -", *t)
+        }
+        _ => {
+            *t += 1000;
+            format!("tick {} {}", *t, l - 13)
+        }
+    }
+}
+
+/// (depth over 2 uplinks [x2: with / without start-up probing], depth over 3 uplinks or 0)
+fn exhaustive_plan(tier: Tier) -> (u32, u32) {
+    match tier {
+        Tier::Quick => (4, 0),
+        Tier::Thorough => (5, 4),
+    }
+}
+
+fn exhaustive_count(tier: Tier) -> usize {
+    let (d2, d3) = exhaustive_plan(tier);
+    4 * LETTERS2.pow(d2) + if d3 > 0 { LETTERS3.pow(d3) } else { 0 }
+}
+
+/// The `idx`-th word of the exhaustive families (every word of the stated depth exactly once).
+fn exhaustive_case(tier: Tier, idx: usize) -> Vec<String> {
+    let (d2, d3) = exhaustive_plan(tier);
+    let n2 = LETTERS2.pow(d2);
+    let mut t: u64 = 200_000;
+    let mut ops = Vec::new();
+    if idx < 4 * n2 {
+        // variant: bit 0 = start-up probing phase, bit 1 = passes through the REAL handle_housekeeping
+        let variant = idx / n2;
+        let probing = variant & 1 == 1;
+        let tick = if variant & 2 == 2 { "hktick" } else { "tick" };
+        let mut w = idx % n2;
+        ops.push("init 2 11".to_string());
+        if probing {
+            ops.push(format!("probe_start {t}"));
+        }
+        for pos in 0..d2 as usize {
+            let l = letter2(w % LETTERS2, pos, &mut t, tick);
+            ops.push(match l.strip_prefix("pkt ") {
+                Some(rest) if tick == "hktick" => format!("hkpkt {rest}"),
+                _ => l,
+            });
+            w /= LETTERS2;
+        }
+    } else {
+        let mut w = idx - 4 * n2;
+        ops.push("init 3 12".to_string());
+        for pos in 0..d3 as usize {
+            ops.push(letter3(w % LETTERS3, pos, &mut t));
+            w /= LETTERS3;
+        }
+    }
+    ops
+}
+
 impl Component for RegComp {
-    fn gen_case(&mut self, rng: &mut Rng, _tier: Tier, _idx: usize) -> Vec<String> {
-        self.gen_ops(rng)
+    fn gen_case(&mut self, rng: &mut Rng, tier: Tier, idx: usize) -> Vec<String> {
+        if idx < exhaustive_count(tier) {
+            exhaustive_case(tier, idx)
+        } else {
+            self.gen_ops(rng)
+        }
     }
 
     fn start_case(&mut self) {
@@ -971,7 +1501,7 @@ impl Component for RegComp {
         // attempt by timeout, or cancelled a pending attempt by REG_ERR
         if (self.case.n_bc > pre_bc && self.case.n_acc >= 1)
             || (self.case.abandoned && !pre_abandoned)
-            || (toks.first() == Some(&"pkt")
+            || (matches!(toks.first(), Some(&"pkt") | Some(&"hkpkt"))
                 && toks.get(3) == Some(&"9210")
                 && pre_pend.is_some()
                 && self.case.reg.pending_reg2_idx().is_none())
@@ -993,8 +1523,14 @@ impl Component for RegComp {
     }
 
     fn rule(&self) -> &'static str {
-        "state-aware random walk over 1-4 (mostly 2-3) uplinks, 5-30 events per case, 40% with a start-up probing \
-         phase, 25% with housekeeping split into its atomic steps, 4% with malformed ops; packets REG_NGP / REG2 \
+        "first, exhaustively: every word of depth 4 (quick) / 5 (thorough) over 12 event letters on 2 uplinks \
+         (REG_NGP/full REG2/REG3/REG_ERR on each uplink, short REG2, tick now, tick +4000 ms, tick +1000 ms with the \
+         reconnect branch of uplink 0), each in four variants: without / with a start-up probing phase x housekeeping \
+         pass mirrored call by call / run through the REAL handle_housekeeping over loopback sockets (4*12^4 = 82944 / \
+         4*12^5 = 995328 cases), thorough also every word of depth 4 over 16 letters on 3 uplinks (65536 cases); then \
+         state-aware random walk over 1-4 (mostly 2-3) uplinks, 5-30 events per case, 40% with a start-up probing \
+         phase, 40% with every housekeeping pass run through the REAL handle_housekeeping (op hktick; links forced \
+         into / kept out of the reconnect branch), 25% with housekeeping split into its atomic steps, 4% with malformed ops; packets REG_NGP / REG2 \
          (full 258, over-long, short 2..257, from the pending uplink, from another uplink, late, duplicated) / REG3 / \
          REG_ERR (pending uplink, other uplink, idle) / other types and lengths 0..1; times placed at T-1, T, T+1 of \
          the live pending / probing deadline and the REG1 retry throttle, steps of 999/1000/1001/1999/2000/2001/3999/\
